@@ -461,11 +461,12 @@ where
         verdict = Verdict::Machinery(d.clone());
     }
     let trace = s.trace_strings();
+    let lock_edges: Vec<(String, bool, String, bool)> = s.lock_edges.iter().cloned().collect();
     let points = std::mem::take(&mut s.points);
     let steps = s.step;
     // drop remaining task futures outside the lock
     let tasks = std::mem::take(&mut s.tasks);
     drop(s);
     drop(tasks);
-    ExecResult { points, verdict, steps, trace, model_states: out.model_states, validated: out.validated, sample: out.sample }
+    ExecResult { points, verdict, steps, trace, model_states: out.model_states, validated: out.validated, sample: out.sample, lock_edges }
 }
